@@ -1,5 +1,5 @@
 """property id -> check function(prop, tier) -> exit code, plus the metadata bin/mkmanifest writes into MANIFEST.json"""
-import frame, keytree, calltracer, codec, precomp, cancun
+import frame, keytree, calltracer, codec, precomp, cancun, steptrace
 
 FRAME_NOTE = ("Trusted: TLC 1.8; go-ethereum v1.12.0's StateDB as world state; the scenario compiler (harness/scn) that turns model "
               "instructions into byte code; join-point failures are injected at provider level (GetTxBondAspects error) except where real WASM "
@@ -84,6 +84,24 @@ META = {
                       "TransientFresh/TransientLocal/Atomicity are model-checked and every behaviour mixing TSTORE, TLOAD, the four call kinds, reverts and two "
                       "transactions is replayed under Cancun (and pre-Cancun, where the opcode bytes must be invalid)."),
                 note="Trusted: TLC; the recorder's per-step cost (EVMLogger.CaptureState) for the gas comparison. Exhaustive within offsets <= 24 (44), memory <= 96 bytes, <= 3 frames, <= 4-5 instructions."),
+    "C01": dict(fn=steptrace.check, engine="steptrace", design_ref="3.2, 4.3, 6 C01", category="model_checking", replay="see the cmd field of {path}",
+                technique="trace validation with TLC: StepTrace.tla checks that each recorded Artela execution refines the go-ethereum v1.12.0 execution of the same program",
+                text=("Every generated program is executed on both implementations through each entry point; StepTrace.tla consumes the paired traces and requires the "
+                      "result pair (return data, error, logs, post-state root, created address) to be equal, also with the tracer off and join points on with nothing bound, "
+                      "on all 12 rule sets and with extra EIPs; programs fold intermediate values into the returned/stored accumulator so that a wrong opcode result is observable."),
+                note="Trusted: TLC; go-ethereum v1.12.0 from the module cache as the reference implementation; both sides run on go-ethereum's StateDB prepared identically; the recorder hashes byte strings and clamps magnitudes, nothing else. A defect shared with the reference is invisible. Sampled (seeded), not exhaustive, except the opcode x operand-class matrix."),
+    "C02": dict(fn=steptrace.check, engine="steptrace", design_ref="3.2, 4.3, 6 C02, App. E", category="model_checking", replay="see the cmd field of {path}",
+                technique="trace validation with TLC: StepTrace.tla compares gas/cost/gasUsed/refund/leftover of every step and frame with the reference and checks the TLA+ gas rules",
+                text=("Per step: gas before, cost; per frame: gas given and used; per run: refund counter and leftover must equal the reference's, under a gas-limit sweep that "
+                      "places the limit one unit below, on and above every intermediate gas value of the top-level frame; independently the TLA+ rules check gas continuity "
+                      "inside and across frames, out-of-gas exactly when cost > gas, constant-price tiers and the memory/copy/hash/log/exp schedule."),
+                note="Trusted: TLC; go-ethereum v1.12.0 from the module cache as the reference implementation; both sides run on go-ethereum's StateDB prepared identically; the recorder hashes byte strings and clamps magnitudes, nothing else. A defect shared with the reference is invisible. Sampled (seeded), not exhaustive, except the opcode x operand-class matrix."),
+    "C18": dict(fn=steptrace.check, engine="steptrace", design_ref="4.3, 6 C18", category="model_checking", replay="see the cmd field of {path}",
+                technique="trace validation with TLC: the callback stream is the trace; StepTrace.tla requires it to equal the reference stream event by event, plus paired inherited tracers",
+                text=("Every CaptureStart/End/Enter/Exit/State/Fault callback with its arguments (pc, op, depth, stack top and hash, memory size and hash, return data, error, "
+                      "from/to/input/value, output) must equal the reference's at the same position; struct logger, access-list, prestate (plain and diff), 4byte, call and "
+                      "flat-call tracers are attached on both sides and their outputs compared; balance of enter/exit under join-point aborts is decided by the frame machine (EvBalanced, C04/C05 scenarios)."),
+                note="Trusted: TLC; go-ethereum v1.12.0 from the module cache as the reference implementation; both sides run on go-ethereum's StateDB prepared identically; the recorder hashes byte strings and clamps magnitudes, nothing else. A defect shared with the reference is invisible. Sampled (seeded), not exhaustive, except the opcode x operand-class matrix."),
 }
 
 CHECKS = {p: m["fn"] for p, m in META.items()}
